@@ -227,7 +227,22 @@ func makeFile(in FileInput) (*fileCtx, error) {
 	}
 	fc.dag = dumpDAG(fc.st, fc.root, map[string]*DNode{})
 	preorder(fc.dag, &fc.order)
-	fc.index = firstIndex(fc.order)
+	// blocks are what the model indexes by: two links with different CIDs over the same bytes (sha2-256 and identity) are
+	// one block there, so the first position of equal BYTES (per codec) is the index of both
+	fc.index = map[string]int{}
+	byBytes := map[string]int{}
+	for i, n := range fc.order {
+		bk := fmt.Sprintf("%d:%x", n.Cid.Prefix().Codec, fc.st.Blocks[n.Cid.KeyString()])
+		if n.Missing {
+			bk = "missing:" + n.Cid.KeyString()
+		}
+		if _, ok := byBytes[bk]; !ok {
+			byBytes[bk] = i
+		}
+		if _, ok := fc.index[n.Cid.KeyString()]; !ok {
+			fc.index[n.Cid.KeyString()] = byBytes[bk]
+		}
+	}
 	if in.Ref != nil || in.Hand != "" {
 		fc.srcTerm = "(FDump " + coqBlk(fc.dag) + ")"
 	} else {
@@ -472,17 +487,26 @@ func runFileInput(rep *Report, in FileInput, cfB, cfR *CaseFile) {
 			if in.Mode == "order" {
 				// C20: first requests in depth-first link order
 				var wantOrder []int
-				seen := map[string]bool{fc.root.KeyString(): true}
-				for i, nd := range fc.order {
-					if !seen[nd.Cid.KeyString()] {
-						seen[nd.Cid.KeyString()] = true
-						wantOrder = append(wantOrder, i)
+				seen := map[int]bool{0: true}
+				for _, nd := range fc.order {
+					if ix := fc.index[nd.Cid.KeyString()]; !seen[ix] {
+						seen[ix] = true
+						wantOrder = append(wantOrder, ix)
 					}
 				}
-				gotOrder := fc.loadsOf(firstRequests(fc.st.Reads))
+				var gotOrder []int
+				seenGot := map[int]bool{}
+				for _, ix := range fc.loadsOf(fc.st.Reads) {
+					if !seenGot[ix] {
+						seenGot[ix] = true
+						gotOrder = append(gotOrder, ix)
+					}
+				}
 				if fmt.Sprint(gotOrder) != fmt.Sprint(wantOrder) {
 					sig := "read-order"
-					if strings.HasPrefix(in.Hand, "nosizes-") {
+					if in.Hand == "empty-leading-leaf" {
+						sig = "leading-empty-read-order" // an empty child at the very start of its parent is never requested
+					} else if strings.HasPrefix(in.Hand, "nosizes-") {
 						sig = "nosizes-read-order" // children without a declared size are opened (measured) before anything is read
 					}
 					fail("C20", sig, "blocks of a full sequential read are not first requested in depth-first link order", wantOrder, gotOrder)
@@ -1171,7 +1195,23 @@ func scnFiles(rep *Report, rng *Rng, tier string, outdir string) {
 	}
 	// hand-assembled DAGs with truthful sizes (packed BlockSizes, empty leaves between others, more BlockSizes than
 	// links, identity-hash links): histories, full reads through every opener, ranges, every single unavailable block
-	for hi, hand := range sizedHands {
+	nRandHand := 10
+	if tier == "thorough" {
+		nRandHand = 300
+	}
+	allSized := append([]string{}, sizedHands...)
+	var randUnsized []string
+	for i := 0; i < nRandHand; i++ {
+		sd := rng.Next() % 1000000
+		if _, c, _ := randHandFile(NewStore(), sd, false); len(c) > 0 {
+			allSized = append(allSized, fmt.Sprintf("sized-rand-%d", sd))
+		}
+		sd = rng.Next() % 1000000
+		if _, c, uns := randHandFile(NewStore(), sd, true); len(c) > 0 && uns {
+			randUnsized = append(randUnsized, fmt.Sprintf("nosizes-rand-%d", sd))
+		}
+	}
+	for hi, hand := range allSized {
 		_, content := handFile(NewStore(), hand)
 		size := len(content)
 		base := FileInput{Hand: hand, Size: size}
@@ -1204,7 +1244,7 @@ func scnFiles(rep *Report, rng *Rng, tier string, outdir string) {
 			addRead(in)
 		}
 		for _, ab := range [][2]int{{0, 1}, {7, 8}, {6, 9}, {16, 17}, {size - 1, size}, {8, 16}} {
-			if ab[1] <= size {
+			if ab[0] >= 0 && ab[0] < ab[1] && ab[1] <= size {
 				in := base
 				in.Mode, in.Opener = "range", "lazy"
 				in.Ops = []FOp{{Kind: "seek", Off: int64(ab[0]), Whence: io.SeekStart}, {Kind: "read", K: ab[1] - ab[0]}}
@@ -1226,13 +1266,31 @@ func scnFiles(rep *Report, rng *Rng, tier string, outdir string) {
 		for i := 1; i < len(fc.order); i++ {
 			fc.st.Unavailable = map[string]uint64{fc.order[i].Cid.KeyString(): 1}
 			o := guard(func() error { _, err := openFile(fc.st, fc.root, "preload"); return err })
-			if o.Class == "ok" {
+			if o.Class == "ok" && hand == "empty-leading-leaf" {
+				rep.Fail("C06", "files/leading-empty-preload-partial", "preload reification returned a node although an (empty, leading) block of the file is unavailable", base, "error", fmt.Sprintf("ok (block %d unavailable)", i))
+			} else if o.Class == "ok" {
 				rep.Fail("C06", "files/hand-preload-partial", "preload reification returned a node although a block of the file is unavailable", base, "error", fmt.Sprintf("ok (block %d unavailable)", i))
 			} else if o.Class == "panic" {
 				rep.Fail("C13", "files/hand-preload-panic", "preload reification panicked on an unavailable block", base, "error", "panic")
 			}
 		}
 		fc.st.Unavailable = map[string]uint64{}
+		// every single block failing once, the reader asked again
+		for i := 1; i < len(fc.order); i++ {
+			in := base
+			in.Mode, in.Opener = "transient", []string{"direct", "lazy", "nodereifier"}[(hi+i)%3]
+			in.Faults = [][2]int{{i, i}}
+			off := rng.Intn(size + 1)
+			k := []int{1, 3, size + 3}[i%3]
+			in.Ops = []FOp{{Kind: "seek", Off: int64(off), Whence: io.SeekStart}}
+			for got := off; got < size+k; got += k {
+				in.Ops = append(in.Ops, FOp{Kind: "read", K: k})
+			}
+			runTransient(rep, in)
+			key, _ := json.Marshal(in)
+			rep.Count("C12", string(key), true, in)
+			rep.Dist("C12", "transient-faults")
+		}
 	}
 	// ranges through a link system whose NodeReifier is Reify (every loaded block arrives as a UnixFS node)
 	for _, ab := range [][2]int{{0, 1}, {9, 11}, {20, 21}, {36, 37}} {
@@ -1276,7 +1334,7 @@ func scnFiles(rep *Report, rng *Rng, tier string, outdir string) {
 	if tier == "thorough" {
 		nHand = 200
 	}
-	for hi, hand := range []string{"nosizes-tree-1", "nosizes-tree-2", "nosizes-mixed"} {
+	for hi, hand := range append([]string{"nosizes-tree-1", "nosizes-tree-2", "nosizes-mixed"}, randUnsized...) {
 		_, content := handFile(NewStore(), hand)
 		size := len(content)
 		for h := 0; h < nHand; h++ {
@@ -1301,7 +1359,7 @@ func scnFiles(rep *Report, rng *Rng, tier string, outdir string) {
 		}
 	}
 	// ... full sequential reads (C20)
-	for hi, hand := range []string{"nosizes-tree-1", "nosizes-tree-2", "nosizes-mixed"} {
+	for hi, hand := range append([]string{"nosizes-tree-1", "nosizes-tree-2", "nosizes-mixed"}, randUnsized...) {
 		_, content := handFile(NewStore(), hand)
 		for v := 0; v < 2; v++ {
 			addRead(FileInput{Hand: hand, Mode: "order", Opener: []string{"direct", "lazy"}[(hi+v)%2], Size: len(content),
@@ -1320,7 +1378,7 @@ func scnFiles(rep *Report, rng *Rng, tier string, outdir string) {
 		}
 	}
 	// ... and with every single block below the root unavailable, read sequentially (then once more after the error)
-	for hi, hand := range []string{"nosizes-tree-1", "nosizes-tree-2"} {
+	for hi, hand := range append([]string{"nosizes-tree-1", "nosizes-tree-2"}, randUnsized...) {
 		base := FileInput{Hand: hand, Mode: "faults"}
 		fc, err := makeFile(base)
 		if err != nil {
@@ -1545,6 +1603,15 @@ func handFile(st *Store, kind string) (cid.Cid, []byte) {
 	if c, content, ok := sizedHandFile(st, kind); ok {
 		return c, content
 	}
+	var rseed uint64
+	if n, _ := fmt.Sscanf(kind, "sized-rand-%d", &rseed); n == 1 {
+		c, content, _ := randHandFile(st, rseed, false)
+		return c, content
+	}
+	if n, _ := fmt.Sscanf(kind, "nosizes-rand-%d", &rseed); n == 1 {
+		c, content, _ := randHandFile(st, rseed, true)
+		return c, content
+	}
 	if kind == "nosizes-mixed" {
 		// root without sizes over a first child that declares its FileSize (measuring it needs only its own block)
 		// and a second child that does not (measuring it opens its leaves)
@@ -1742,7 +1809,7 @@ func min64(a, b int64) int64 {
 }
 
 // sizedHands: hand-assembled file DAGs with truthful sizes in shapes or encodings no builder here writes
-var sizedHands = []string{"pb-packed-sizes", "empty-middle-leaf", "pb-extra-blocksizes", "identity-raw-leaf", "identity-pb-leaves"}
+var sizedHands = []string{"pb-packed-sizes", "empty-middle-leaf", "pb-extra-blocksizes", "identity-raw-leaf", "identity-pb-leaves", "empty-leading-leaf"}
 
 func sizedHandFile(st *Store, kind string) (cid.Cid, []byte, bool) {
 	pbLeaf := func(c []byte, identity bool) cid.Cid {
@@ -1786,6 +1853,11 @@ func sizedHandFile(st *Store, kind string) (cid.Cid, []byte, bool) {
 			kids, lens, content = append(kids, pbLeaf(c, false)), append(lens, uint64(len(c))), append(content, c...)
 		}
 		return sizedNode(kids, lens, true, nil), content, true
+	case "empty-leading-leaf":
+		for _, c := range [][]byte{{}, []byte("aaa"), []byte("bbb")} {
+			kids, lens, content = append(kids, st.PutRaw(c)), append(lens, uint64(len(c))), append(content, c...)
+		}
+		return sizedNode(kids, lens, false, nil), content, true
 	case "empty-middle-leaf":
 		for _, c := range [][]byte{[]byte("aaa"), {}, []byte("bbb"), {}} {
 			kids, lens, content = append(kids, st.PutRaw(c)), append(lens, uint64(len(c))), append(content, c...)
@@ -1869,4 +1941,115 @@ func runQuickSizes(rep *Report) {
 	}
 	rep.Count("C11", "quick-builder-sizes", true, in)
 	rep.Dist("C11", "quick-builder")
+}
+
+// randHandFile: a random hand-assembled file DAG with truthful sizes.  Leaves are raw or dag-pb blocks (inline data), under
+// sha2-256 or identity links, possibly empty; interior nodes declare BlockSizes unpacked, packed or with a surplus entry,
+// with or without FileSize; with allowUnsized also no BlockSizes at all or fewer than links (the children concerned have to
+// be opened to be measured).  Returns whether any child is unsized.
+func randHandFile(st *Store, seed uint64, allowUnsized bool) (cid.Cid, []byte, bool) {
+	rng := NewRng(seed, "handfile")
+	ctr := 0
+	unsized := false
+	var build func(depth int, top bool) (cid.Cid, []byte, bool)
+	build = func(depth int, top bool) (cid.Cid, []byte, bool) {
+		if !top && (depth == 0 || rng.Intn(3) == 0) {
+			ctr++
+			n := []int{0, 1, 3, 9, 12}[rng.Intn(5)]
+			// distinct non-empty leaves have distinct bytes, and equal (empty) ones one kind of link: the model knows a
+			// block by its bytes, two CIDs over the same bytes would be one block there and two for the storage
+			c := []byte(fmt.Sprintf("%03d:abcdefgh", ctr))[:n]
+			if n == 1 {
+				c = []byte{byte(33 + ctr%90)}
+			}
+			kind := rng.Intn(4)
+			if n == 0 {
+				kind = 2 * (kind % 2) // raw under sha2-256, or dag-pb under sha2-256 (see below)
+			}
+			switch kind {
+			case 0:
+				return st.PutRaw(c), c, false
+			case 1:
+				return st.PutIdentity(cid.Raw, c), c, false
+			default:
+				fs := uint64(len(c))
+				blk := encodePBRaw(nil, ufsData(2, c, true, &fs, nil, nil, nil), true)
+				if n > 0 && rng.Intn(3) == 0 {
+					return st.PutIdentity(cid.DagProtobuf, blk), c, true
+				}
+				return st.PutPBRaw(blk), c, true
+			}
+		}
+		nk := 1 + rng.Intn(4)
+		var rl []rawLink
+		var lens []uint64
+		var content []byte
+		var isPb []bool
+		for i := 0; i < nk; i++ {
+			k, c, pb := build(depth-1, false)
+			for tries := 0; len(content) == 0 && len(c) == 0 && tries < 8; tries++ {
+				// an empty child at the very start of its parent is stepped over by every reader (never requested): that
+				// case has its own input ("empty-leading-leaf"); here every node starts with some content
+				k, c, pb = build(depth-1, false)
+			}
+			if len(content) == 0 && len(c) == 0 {
+				ctr++
+				c = []byte(fmt.Sprintf("F%03d", ctr))
+				k, pb = st.PutRaw(c), false
+			}
+			nm := ""
+			ts := uint64(len(c)) // a raw leaf's Tsize is its length; for dag-pb children the reader does not look at it
+			if pb {
+				ts = uint64(len(st.Blocks[k.KeyString()])) + uint64(len(c))
+			}
+			rl = append(rl, rawLink{Name: &nm, Tsize: &ts, Cid: k})
+			lens = append(lens, uint64(len(c)))
+			content = append(content, c...)
+			isPb = append(isPb, pb)
+		}
+		total := uint64(len(content))
+		var fsz *uint64
+		if rng.Intn(3) != 0 {
+			fsz = &total
+		}
+		mode := rng.Intn(3)
+		if allowUnsized {
+			mode = rng.Intn(5)
+		}
+		bs := append([]uint64{}, lens...)
+		packed := false
+		switch mode {
+		case 1:
+			packed = true
+		case 2:
+			bs = append(bs, 0)
+		case 3:
+			bs = nil
+		case 4:
+			bs = bs[:rng.Intn(len(bs))]
+		}
+		for i, pb := range isPb {
+			if pb && i >= len(bs) {
+				unsized = true
+			}
+		}
+		d := protowire.AppendVarint(protowire.AppendTag(nil, 1, protowire.VarintType), 2)
+		if fsz != nil {
+			d = protowire.AppendVarint(protowire.AppendTag(d, 3, protowire.VarintType), *fsz)
+		}
+		if packed && len(bs) > 0 {
+			var run []byte
+			for _, v := range bs {
+				run = protowire.AppendVarint(run, v)
+			}
+			d = protowire.AppendBytes(protowire.AppendTag(d, 4, protowire.BytesType), run)
+		} else {
+			for _, v := range bs {
+				d = protowire.AppendVarint(protowire.AppendTag(d, 4, protowire.VarintType), v)
+			}
+		}
+		return st.PutPBRaw(encodePBRaw(rl, d, true)), content, true
+	}
+	c, content, _ := build(2+int(seed%2), true)
+	return c, content, unsized
 }
